@@ -80,6 +80,17 @@ for ev in hist:
             st = os.stat(p)
             os.utime(p, (st.st_atime + 5, st.st_mtime + 5))
             out['events'].append(['touch', ev[1], removed.get('name') if removed else None])
+        elif kind == 'break_item':
+            # make the statement of the named theorem unparsable (as while it is being edited)
+            p = os.path.join(repo, 'library', ev[1] + '.json')
+            data = json.load(open(p, encoding='utf-8'))
+            for it in data['content']:
+                if it.get('ty') == 'thm' and it.get('name') == ev[2]:
+                    it['prop'] = '(((' + str(it['prop'])
+            json.dump(data, open(p, 'w', encoding='utf-8'))
+            st = os.stat(p)
+            os.utime(p, (st.st_atime + 5, st.st_mtime + 5))
+            out['events'].append(['break_item', ev[1], 'ok'])
         elif kind == 'has_theorem':
             from kernel import theory
             out['events'].append(['has_theorem', ev[1], bool(theory.thy.has_theorem(ev[1]))])
@@ -111,12 +122,13 @@ def run(tier='quick', seed=0):
     rng = random.Random(seed)
     violations = []
     samples = []
-    targets = [('logic_base', None), ('logic', None), ('set', None), ('nat', None), ('function', None),
+    targets = [('logic_base', None), ('logic', None), ('set', None), ('nat', None), ('function', None), ('gcd', None),
                ('nat', ['thm', 'add_comm']), ('logic', ['thm', 'conj_comm']), ('set', ['thm', 'subset_trans'])]
     if tier != 'quick':
-        targets += [('list', None), ('int', None), ('real', None), ('hoare', None), ('expr', None),
+        targets += [('list', None), ('int', None), ('real', None), ('hoare', None), ('expr', None), ('gcd', None),
+                    ('realintegral', None), ('smt', None), ('interval_arith', None),
                     ('int', ['thm', 'int_add_comm']), ('list', ['thm', 'append_assoc'])]
-    others = ['logic_base', 'set', 'nat', 'list', 'function', 'int', 'hoare']
+    others = ['logic_base', 'set', 'nat', 'list', 'function', 'int', 'hoare', 'real']
     modules = ['data.integer', 'data.real', 'prover.omega', 'prover.simplex', 'imperative.imp', 'prover.z3wrapper',
                'data.expr']
     jobs = []       # (label, target, history)
@@ -154,8 +166,15 @@ def run(tier='quick', seed=0):
                 any(e[0] == 'load' and str(e[2]).startswith('EXC') for e in r0['events']):
             if label == 'reference':
                 samples.append({'target': tgt, 'reference': 'does not load: %s' % r0.get('events')})
-            continue            # the target does not load at all in a fresh process: nothing to compare
+            elif res['events'] and res['events'][-1][2] == 'ok' and label not in ('interrupted load first',):
+                violations.append({'function': 'logic.basic.load_theory', 'clause': 'history-independent',
+                                   'what': 'theory %s does not load in a fresh process (%s) but loads after the history '
+                                           '(%s)' % (tgt, [e[2] for e in r0['events']][-1:], label), 'history': hist})
+            continue            # the target does not load in a fresh process: nothing else to compare
         last = res['events'][-1] if res['events'] else None
+        if len(samples) < 3 and label != 'reference':
+            samples.append({'target': tgt, 'history': label, 'digest_equal_to_fresh_load': res['digest'] == r0['digest'],
+                            'sizes': res.get('sizes')})
         if last is None or last[2] != 'ok':
             violations.append({'function': 'logic.basic.load_theory', 'clause': 'loads-after-history',
                                'what': 'load of %s fails after the history (%s): %s' % (tgt, label, last),
@@ -176,9 +195,13 @@ def run(tier='quick', seed=0):
         for d in ('kernel', 'logic', 'data', 'syntax', 'server', 'util', 'prover', 'imperative', 'integral', 'library'):
             if os.path.isdir(os.path.join(REPO, d)):
                 shutil.copytree(os.path.join(REPO, d), os.path.join(scratch, d),
-                                ignore=shutil.ignore_patterns('__pycache__', 'examples', 'tests'))
+                                ignore=shutil.ignore_patterns('__pycache__', 'examples'))
         if os.path.exists(os.path.join(REPO, '__init__.py')):
             shutil.copy(os.path.join(REPO, '__init__.py'), scratch)
+        # the scratch copy itself must work, otherwise the scenarios below would pass vacuously
+        probe = _run_hist(scratch, [['load', 'set', None]])
+        if not probe['events'] or probe['events'][-1][2] != 'ok':
+            raise RuntimeError('scratch copy of the working tree does not load theory set: %s' % probe)
         # (1) a changed file is re-read
         res = _run_hist(scratch, [['load', 'logic', None], ['touch', 'logic'], ['load', 'logic', None],
                                   ['has_theorem', '__REMOVED__']])
@@ -198,6 +221,36 @@ def run(tier='quick', seed=0):
                                            'differs from a fresh load of the modified file (sizes %s vs %s)' % (
                                                removed[0][2], res4.get('sizes'), res2.get('sizes')),
                                    'history': 'load logic; modify logic.json; load logic'})
+        # (1b) a changed IMPORT is re-read: load set (imports logic), modify logic.json, load set again
+        shutil.rmtree(os.path.join(scratch, 'library'))
+        shutil.copytree(os.path.join(REPO, 'library'), os.path.join(scratch, 'library'))
+        warm = _run_hist(scratch, [['load', 'set', None], ['touch', 'logic'], ['load', 'set', None]])
+        fresh = _run_hist(scratch, [['load', 'set', None]])          # fresh process, file already modified
+        evals += 2
+        if not str(fresh['digest']).startswith(('EXC', 'CRASH', 'TIMEOUT')) and warm['digest'] != fresh['digest']:
+            violations.append({'function': 'logic.basic.load_theory', 'clause': 'changed-import-reread',
+                               'what': 'load set; remove a theorem from logic.json; load set again: differs from a fresh '
+                                       'load of set over the modified logic.json (sizes %s vs %s)' % (
+                                           warm.get('sizes'), fresh.get('sizes')),
+                               'history': 'load set; modify logic.json; load set'})
+        # (1c) a limit that names an item whose statement does not parse: the theory before that item
+        shutil.rmtree(os.path.join(scratch, 'library'))
+        shutil.copytree(os.path.join(REPO, 'library'), os.path.join(scratch, 'library'))
+        ref_l = _run_hist(scratch, [['load', 'nat', ['thm', 'add_comm']]])
+        cold = _run_hist(scratch, [['break_item', 'nat', 'add_comm'], ['load', 'nat', ['thm', 'add_comm']]])
+        shutil.rmtree(os.path.join(scratch, 'library'))
+        shutil.copytree(os.path.join(REPO, 'library'), os.path.join(scratch, 'library'))
+        warm_l = _run_hist(scratch, [['load', 'nat', None], ['break_item', 'nat', 'add_comm'],
+                                     ['load', 'nat', ['thm', 'add_comm']]])
+        evals += 3
+        if not str(ref_l['digest']).startswith(('EXC', 'CRASH', 'TIMEOUT')):
+            for lab, r_ in (('fresh process', cold), ('after a full load', warm_l)):
+                last = r_['events'][-1] if r_['events'] else None
+                if last is None or last[2] != 'ok' or r_['digest'] != ref_l['digest']:
+                    violations.append({'function': 'logic.basic.load_theory', 'clause': 'limit-at-erroneous-item',
+                                       'what': 'limit (thm, add_comm) whose statement no longer parses (%s): %s, sizes %s vs '
+                                               '%s' % (lab, last, r_.get('sizes'), ref_l.get('sizes')),
+                                       'history': 'break nat.add_comm; load nat with limit add_comm'})
         # (2) an import cycle is reported
         shutil.rmtree(os.path.join(scratch, 'library'))
         shutil.copytree(os.path.join(REPO, 'library'), os.path.join(scratch, 'library'))
